@@ -123,6 +123,9 @@ def apply_op(rig, op):
             share.create([(k, v) for k, v in op[3]])
         else:
             share.create(**dict((k, v) for k, v in op[3]))
+    elif kind == "del":
+        if op[2] in share:
+            del share[op[2]]
     elif kind == "value":
         share.value = op[2]
     elif kind == "stamp":
